@@ -34,4 +34,16 @@ PROPS = {
              "post-call eviction order / reserved bytes / live keys; non-trivial = at least one eviction by admission and two completions",
         assumptions=["eviction order and reserved bytes are read through an export-only overlay shim (harness/overlay/lib/store/disk)"],
     ),
+    "C08": dict(
+        specdir="store", engine="c08",
+        mc=[dict(module="BlobStore", cfg="MC_BlobStore.cfg", tiers=("thorough",)),
+            dict(module="MemHandles", cfg="MC_MemHandles.cfg")],
+        trace=dict(module="MemHandlesTrace", cfg="MemHandlesTrace.cfg"),
+        nontrivial=lambda recs: any(r.get("res") == "evicted" for r in recs) and _evictions(recs) >= 1,
+        rule="seeded random histories on a real memory.Store (40-80 store calls over 4 keys + interleaved Read/ReadAt/Write/"
+             "WriteAt/Seek/Size on up to 6 handles kept across evictions, deletions and re-creations); non-trivial = at least one "
+             "eviction by admission and at least one handle call answered 'evicted'",
+        assumptions=["zero-length reads and negative offsets are answered before the store is consulted (Reading in DESIGN C08)",
+                     "concurrent schedules are covered by the c08 concurrent driver only in the thorough tier"],
+    ),
 }
